@@ -687,8 +687,9 @@ pub fn pick_backend(rng: &mut Rng, prop: &str) -> Backend {
     match prop {
         "C06" => *rng.pick(&[
             Backend::Vm,
-            Backend::Vm,
+            Backend::VmCli,
             Backend::WasmP2,
+            Backend::WasmCli,
             Backend::WasmP3,
             Backend::WasmP3,
             Backend::WasmP4,
@@ -696,11 +697,13 @@ pub fn pick_backend(rng: &mut Rng, prop: &str) -> Backend {
         _ => *rng.pick(&[
             Backend::Vm,
             Backend::Vm,
-            Backend::Vm,
+            Backend::VmCli,
+            Backend::VmCli,
             Backend::WasmP3,
             Backend::WasmP3,
             Backend::WasmP4,
             Backend::WasmP2,
+            Backend::WasmCli,
         ]),
     }
 }
